@@ -85,6 +85,14 @@ func c05Run(c *mc.Ctx) {
 			}
 			writerBFS(c, "C05", WriterCfg{Kind: "bytes", InitLen: sh.l, InitCap: sh.c, Sizes: sizes, Reverse: rev}, depth)
 		}
+		// histories that start after 8..12 and 19..21 flush cycles: the size-statistics ring (10 buckets) wraps
+		for _, warm := range []int{8, 9, 10, 11, 12, 19, 20, 21} {
+			if !c.Mine() {
+				continue
+			}
+			writerBFS(c, "C05", WriterCfg{Kind: "default", Sizes: []int{1, 4097}, Reverse: rev, Warm: warm}, 3)
+			writerBFS(c, "C05", WriterCfg{Kind: "bytes", InitLen: 3, InitCap: 8, Sizes: []int{1, 4097}, Reverse: rev, Warm: warm}, 3)
+		}
 	}
 }
 
